@@ -23,7 +23,7 @@ TICK = 0.5  # seconds of virtual time per spec tick
 
 class Hub:
     def __init__(self, timecode: bool = False, timing: bool = True, log_level: int = 100, salt: int = 0,
-                 chunk: Optional[int] = None, space: Optional[int] = None):
+                 chunk: Optional[int] = None, space: Optional[int] = None, debug: bool = False):
         from . import vio
 
         vio._HASH_SALT[0] = (0x9E3779B1 * (salt + 1)) & 0x7FFFFFFF
@@ -38,7 +38,7 @@ class Hub:
 
         self.M = M
         self.mgr = M.MessageManager(ip_address="127.0.0.1", port=7111, timecode=timecode,
-                                    log_level=log_level, debug=False, send_msg_timing=timing)
+                                    log_level=log_level, debug=debug, send_msg_timing=timing)
         self.timing = timing
         self.payloads = F.Payloads()
         self.events: List[dict] = []
